@@ -18,7 +18,11 @@ Property on the real code, independent of the model:
     from_regex succeed together or raise the same exception class, a RegexException subclass
     (theorems C11_validate_from_regex_any[_default], C11_lex_error_kind) — e.g. a{2,1}, a{-1,2};
   * isequal / issubset / issuperset = language (in)equality / inclusion of the two ASTs,
-    decided exactly by Brzozowski derivatives.
+    decided exactly by Brzozowski derivatives;
+  * (round 6) the same helpers called WITH THEIR DEFAULT ARGUMENTS on two expressions whose texts have the same
+    default alphabet Σ (= a common alphabet): the answers, and those with input_symbols=Σ, are the language
+    comparison over exactly Σ — '.' ranges over the symbols of the texts, literals need not be alphanumeric
+    (generator and judge: harness/rx_defaults.py).
 """
 from __future__ import annotations
 
@@ -32,6 +36,7 @@ from automata.fa.nfa import NFA
 from automata.regex import regex as rx
 
 from harness import rx_common as R
+from harness import rx_defaults as D
 from harness import rx_sequences as S
 from harness.common import Ctx, InfraError, Toks, call, toks
 
@@ -43,26 +48,42 @@ RULE = ("cases = (0) round 3, run first: 1000 (thorough 8000) PROGRAMS of 1–5 
         "from_regex(r) with the default alphabet, then isequal+issubset+issuperset(r, r', Σ), sometimes again, swapped, or "
         "over Σ∪{x} before / after; `()` inserted into 70 % of the expressions; every step judged on its own (grammar by "
         "construction and by the recogniser, comparisons by derivatives); a failing program is re-run in a fresh "
-        "interpreter before it is reported and is its own replay; (a) strings that are sequences of the documented tokens: every sequence of length ≤3 over the 16 "
+        "interpreter before it is reported and is its own replay; (0b) round 6, DEFAULT ARGUMENTS: pairs of expressions "
+        "whose texts have the SAME default alphabet Σ (non-reserved characters of the text: literals and the digits / comma "
+        "of quantifiers), compared by isequal / issubset / issuperset with input_symbols omitted (15 %: None spelled out) AND "
+        "with input_symbols=Σ — both must equal the language comparison of the two ASTs over exactly Σ (derivatives, "
+        "cross-checked by brute-force set semantics on short words), and validate / from_regex with the default alphabet "
+        "must accept both and compile them to their language over Σ: a corpus of 16 pairs in both orders, EVERY ordered "
+        "pair of depth-≤1 ASTs over {c, ., ()} in which both mention c and one contains the wildcard (320; c random "
+        "alphanumeric, plus a sample of 60 for a punctuation / non-ASCII c; thorough: all 640 for a and -), and 330 "
+        "(thorough 9000) shaped random pairs: 1–3 literals out of ASCII letters / digits / punctuation -_#,:;=!@%~<>/'\"[]$\\ / "
+        "é ß λ µ Ж 中 𝒳 ٣, the wildcard forced into 70 %, quantifiers in 40 %, second expression = language-preserving "
+        "rewrite / '.' spelled out as the alternation of Σ / '.'→literal / literal→'.' / superset / independent, the poorer "
+        "side padded with a branch mentioning the missing symbols so that the default alphabets coincide (pairs with "
+        "different default alphabets are F17, outside the property, never judged); (a) strings that are sequences of the documented tokens: every sequence of length ≤3 over the 16 "
         "texts ( ) | & ^ * + ? {1,2} {0,0} {,} {2,} . a b blank and every sequence of length 4 (thorough 5) over the 12 "
         "texts ( ) | & ^ * + ? {1,2} . a blank, then random longer ones shaped to be nearly valid — each with the "
         "default and with an explicit alphabet; (b) malformed strings (lone braces, odd bounds, white space): "
         "model=code, and for numeric brace groups the agreement / regex-error-type rule on the real code; (c) pairs of "
         "ASTs rendered to strings compared over a common explicit alphabet (1–7 symbols, incl. 1 , - é 𝒳); "
-        "non-trivial = (0) a program of ≥2 calls, (a) ≥3 tokens with at least one parenthesis or operator, "
+        "non-trivial = (0) a program of ≥2 calls, (0b) both languages non-empty with ≥3 words of length ≤2 between them, (a) ≥3 tokens with at least one parenthesis or operator, "
         "(c) both languages non-empty and not both trivial; distinct = distinct strings / pairs")
 ASSUMPTIONS = [
     "documented tokens in the grammar part: symbols, operators, parentheses, {m,n} {m,} {,n} with ASCII decimal bounds, blanks; "
     "the agreement / error-type rule is also evaluated on arbitrary strings whose brace groups are numeric for int() "
     "(a lone brace lexed as a symbol and non-numeric bounds are outside the documented syntax: model = code only)",
-    "comparisons take an explicit common alphabet (with input_symbols=None each regex infers its own alphabet, F17)",
+    "comparisons are over a common alphabet: an explicit one, or (round 6) the helpers' default arguments on two texts whose "
+    "default alphabets coincide; with input_symbols=None and DIFFERENT inferred alphabets `==` answers NotImplemented → False "
+    "(F17) — such pairs are outside the property and are not judged",
     "Python re / int() are modelled by hand (trusted)",
     "the property is about inputs, so no answer may depend on earlier calls: programs of calls are judged step by step by "
     "history-free oracles; the Lean model is a pure function (it has no history to compare)",
 ]
 EXPLANATION = ("C11_* theorems: validate_tokens accepts exactly the token grammar, which is exactly when the model compiles; "
                "errors are RegexException subclasses; the comparison helpers reduce to language (in)equality via C10. "
-               "This run ties the model to the code and evaluates the property itself on the real code.")
+               "This run ties the model to the code and evaluates the property itself on the real code — families: call "
+               "programs over fresh alphabets, default-argument comparisons over a shared default alphabet, token sequences "
+               "(exhaustive + nearly valid), malformed strings, comparisons over an explicit alphabet.")
 
 TOKEN_TEXTS = ["(", ")", "|", "&", "^", "*", "+", "?", "{1,2}", ".", "a", " "]
 # for the short sequences (length ≤3): the other quantifier shapes and a second symbol as well
@@ -435,7 +456,9 @@ def judge_program_json(text: str):
 
 def replay_case(ctx: Ctx, rp: dict):
     """Re-evaluate one recorded case (kind cmp / string / tokens) with the same library calls as in the run."""
-    if rp.get("kind") == "cmp":
+    if rp.get("kind") == "defcmp":
+        check_defcmp_strings(ctx, rp["re1"], rp["re2"], to_ast(rp["ast1"]), to_ast(rp["ast2"]), "replay", rp.get("spell", "omitted"))
+    elif rp.get("kind") == "cmp":
         check_cmp_strings(ctx, rp["re1"], rp["re2"], to_ast(rp["ast1"]), to_ast(rp["ast2"]), "".join(rp["input_symbols"]), "replay")
     elif rp.get("kind") == "string":
         check_malformed(ctx, rp["regex"], "replay")
@@ -502,6 +525,100 @@ def fresh_alphabet_sequences(ctx: Ctx):
     S.report_failing(ctx, failing)
 
 
+@marks_calls
+def check_defcmp_strings(ctx: Ctx, s1: str, s2: str, e1, e2, origin: str, spell: str = "omitted", tags=()):
+    """Round 6: one pair of renderings with the SAME default alphabet Σ, compared with the helpers' DEFAULT
+    arguments (input_symbols omitted, or None spelled out) and with input_symbols=Σ: both must give the language
+    comparison over exactly Σ (oracle: the two ASTs, harness/rx_defaults.py); validate / from_regex with the default
+    alphabet must accept both texts and compile them to their language over Σ.  Also the replay entry."""
+    case = dict(kind="defcmp", re1=s1, re2=s2, ast1=e1, ast2=e2, spell=spell)
+    CALLS.append(dict(case, op="case"))
+    res = D.judge_pair(s1, s2, e1, e2, spell)
+    if "skip" in res:
+        ctx.stat("defcmp_skipped_" + res["skip"])
+        return
+    sigma, sub, sup = res["sigma"], res["sub"], res["sup"]
+    ctx.stat(origin)
+    for tg in tags:
+        ctx.stat("defcmp_" + tg)
+    has_any = "any" in (R.ops_of(e1) | R.ops_of(e2))
+    ctx.stat("defcmp_wildcard_" + ("yes" if has_any else "no"))
+    ctx.stat("defcmp_literals_" + D.literal_class(sigma))
+    ctx.stat(f"defcmp_alphabet_size_{min(len(sigma), 6)}")
+    ctx.stat("defcmp_spelled_" + spell)
+    ctx.stat(f"defcmp_eq{int(sub and sup)}_sub{int(sub)}_sup{int(sup)}")
+    if D.alphabet_sensitive(e1, e2, sigma, (sub, sup)):
+        ctx.stat("defcmp_answer_depends_on_what_dot_ranges_over")
+    n1, n2 = len(R.den_words(e1, sorted(sigma), 2)), len(R.den_words(e2, sorted(sigma), 2))
+    ctx.case(("default", s1, s2) if (n1 >= 1 and n2 >= 1 and n1 + n2 >= 3) else None)
+    if res["wrong"]:
+        ctx.stat("defcmp_failing_pair")
+        ctx.prop_fail(f"{s1!r} vs {s2!r} (same default alphabet {sorted(sigma)}): " + "; ".join(res["wrong"]), case, None)
+        return
+    if ctx.evaluations % 53 == 7:
+        ctx.sample(dict(re1=s1, re2=s2, default_alphabet=sorted(sigma), isequal=sub and sup, issubset=sub, issuperset=sup,
+                        called="default arguments and input_symbols=default alphabet"))
+    # correspondence: the model helpers over the explicit alphabet Σ against the real DEFAULT-argument answers
+    sig = frozenset(sigma)
+    sizes = [call(lambda s=s: len(NFA.from_regex(s, input_symbols=sig).states)) for s in (s1, s2)]
+    if any(r[0] == "ok" and r[1] > 40 for r in sizes):
+        ctx.stat("defcmp_model_skipped_large_nfa")
+        return
+    model_cmp(ctx, s1, s2, "".join(sorted(sigma)), dict(case, input_symbols=sorted(sigma), origin="default_arguments"),
+              tuple(res["default"]))
+
+
+def default_argument_comparisons(ctx: Ctx):
+    """Round 6 family: pairs of valid expressions whose texts have the same default alphabet, compared with the
+    helpers' default arguments (harness/rx_defaults.py): corpus, an exhaustive sub-domain, shaped random pairs."""
+    rng = ctx.rng
+
+    def enough_failures() -> bool:
+        # a broken tree fails on hundreds of these pairs (and its helpers may be slow): 40 failing pairs are evidence enough
+        return ctx.stats.get("defcmp_failing_pair", 0) >= 40
+
+    for e1, e2 in D.corpus():
+        s1, s2 = R.render(e1, "min"), R.render(e2, "min")
+        if S.default_alphabet(s1) != S.default_alphabet(s2):
+            raise InfraError(f"default-argument corpus: {s1!r} and {s2!r} have different default alphabets")
+        check_defcmp_strings(ctx, s1, s2, e1, e2, "defcmp_corpus")
+        check_defcmp_strings(ctx, s2, s1, e2, e1, "defcmp_corpus", "none")
+    symbols = ["a", "-"] if ctx.thorough() else [rng.choice(["a", "Q", "7"]), rng.choice(D.PUNCT + D.UNICODE)]
+    for i, c in enumerate(symbols):
+        pairs = list(D.exhaustive_pairs(c))
+        if not ctx.thorough() and i == 1:
+            pairs = rng.sample(pairs, 60)           # quick tier: the second symbol on a sample of the sub-domain
+        for e1, e2 in pairs:
+            if enough_failures():
+                break
+            check_defcmp_strings(ctx, R.render(e1, "min"), R.render(e2, "min"), e1, e2, "defcmp_small_pool")
+        if ctx.thorough() or i == 0:
+            ctx.exhaustive(f"default arguments: every ordered pair of ASTs of depth ≤1 over the atoms {c!r} . () (no quantifier) "
+                           f"in which both mention {c!r} and at least one contains the wildcard ({len(pairs)} pairs): "
+                           "isequal/issubset/issuperset with input_symbols omitted and with input_symbols={" + c + "} vs the "
+                           "language comparison over {" + c + "}")
+    n = 0
+    for _ in range(ctx.budget(330, 9000) * 3):
+        if n >= ctx.budget(330, 9000) or enough_failures():
+            break
+        pair = D.gen_pair(rng, rewrite_equiv)
+        if pair is None:
+            ctx.stat("defcmp_generator_too_large")
+            continue
+        n += 1
+        tags = ["rel_" + pair["rel"]] + (["padded_to_equal_alphabets"] if pair["padded"] else []) + \
+               (["with_quantifiers"] if pair["quant"] else ["no_quantifier"])
+        check_defcmp_strings(ctx, pair["re1"], pair["re2"], pair["ast1"], pair["ast2"], "defcmp_random",
+                             "none" if rng.random() < 0.15 else "omitted", tags)
+    if enough_failures():
+        ctx.note("default-argument comparisons: the family stopped after 40 failing pairs")
+    for key, what in (("defcmp_skipped_oracle_budget", "the derivative oracle hit its budget — skipped"),
+                      ("defcmp_model_skipped_large_nfa", "an operand compiles to more than 40 states — judged on the real "
+                                                         "code, model not asked")):
+        if ctx.stats.get(key, 0):
+            ctx.note(f"{ctx.stats[key]} default-argument pair(s): {what}")
+
+
 def run(ctx: Ctx):
     try:
         run_families(ctx)
@@ -513,6 +630,8 @@ def run_families(ctx: Ctx):
     rng = ctx.rng
     # 0. call sequences over fresh alphabets — FIRST, while no alphabet has been used in this process
     fresh_alphabet_sequences(ctx)
+    # 0b. round 6: the helpers with their DEFAULT arguments on pairs with the same default alphabet
+    default_argument_comparisons(ctx)
     # 1. corpus: F5 trigger and friends, m24 shapes
     for texts in ([" "], [" ", " "], [], ["(", "a", "|", ")"], ["(", "|", "a", ")"], ["a", "|", ")"], ["(", ")"],
                   ["(", "(", ")", ")"], ["a", "*", "*"], ["(", ")", "*"], [")", "("], ["(", "a"], ["a", ")"],
